@@ -5,6 +5,7 @@ package shmipc
 // C12 - handshake yields one shared memory and the lower version, or errors on both ends (engine E4, fault enumeration).
 
 import (
+	"sync/atomic"
 	"encoding/binary"
 	"fmt"
 	"net"
@@ -32,6 +33,9 @@ type hs12Case struct {
 	ServerVer int `json:"server_ver,omitempty"`
 	// generated part: extra delay in ms before each step of the scripted peer (0 = none)
 	DelayMs int `json:"delay_ms,omitempty"`
+	// kind "pair-slow": two genuine ends, of which SlowEnd (server | client) is held up *inside* its own handshake: its k-th log
+	// write (k = Step) blocks for longer than its InitializeTimeout (the configuration's LogOutput is the only delay hook the library offers)
+	SlowEnd string `json:"slow_end,omitempty"`
 }
 
 func connPair(network string) (net.Conn, net.Conn) {
@@ -120,7 +124,79 @@ func c12Cases() []hs12Case {
 			}
 		}
 	}
+	// a genuine end that is slow itself: the time-out fires while its handshake goroutine is between two steps, not blocked in a read
+	for _, end := range []string{"server", "client"} {
+		for k := 0; k < 12; k++ {
+			cs = append(cs, hs12Case{Kind: "pair-slow", MemFd: true, Network: "unix", Step: k, SlowEnd: end})
+		}
+	}
 	return cs
+}
+
+// slowLog blocks at its k-th write
+type slowLog struct {
+	k    int32
+	d    time.Duration
+	n    int32
+	slow int32
+}
+
+func (w *slowLog) Write(b []byte) (int, error) {
+	if atomic.AddInt32(&w.n, 1)-1 == w.k {
+		atomic.StoreInt32(&w.slow, 1)
+		time.Sleep(w.d)
+	}
+	return len(b), nil
+}
+
+// c12RunPairSlow: see hs12Case.SlowEnd. The verdict that does not depend on timing: an end that reported a failed handshake must
+// not have completed it on the wire - when the *server* (which sends the last message) fails, the client must fail too.
+func c12RunPairSlow(c hs12Case, r *runCtx) {
+	oldLevel := level
+	level = levelInfo
+	defer func() { level = oldLevel }()
+	cc, sc := connPair(c.Network)
+	cconf := c12Config(c.MemFd)
+	cconf.InitializeTimeout = 5 * time.Second
+	sconf := *cconf
+	w := &slowLog{k: int32(c.Step), d: 900 * time.Millisecond}
+	if c.SlowEnd == "server" {
+		sconf.InitializeTimeout = 300 * time.Millisecond
+		sconf.LogOutput = w
+	} else {
+		cconf.InitializeTimeout = 300 * time.Millisecond
+		cconf.LogOutput = w
+	}
+	t0 := time.Now()
+	client, server, cerr, serr := newPairFromConns(cconf, &sconf, cc, sc)
+	el := time.Since(t0)
+	defer func() {
+		if client != nil {
+			client.Close()
+		}
+		if server != nil {
+			server.Close()
+		}
+		waitPoked(3*time.Second, func() bool {
+			return (client == nil || client.queueManager == nil) && (server == nil || server.queueManager == nil)
+		})
+	}()
+	if atomic.LoadInt32(&w.slow) == 1 {
+		r.Label("held-up-inside-handshake:" + c.SlowEnd)
+	} else {
+		r.Label("log-line-not-reached")
+	}
+	if el > 7*time.Second {
+		r.Violf("genuine pair with a %s held up for 900 ms at its log write %d: the handshake calls took %v (time-outs 300 ms / 5 s)", c.SlowEnd, c.Step, el)
+		return
+	}
+	if c.SlowEnd == "server" && serr != nil && cerr == nil {
+		r.Violf("genuine pair, the server was held up for 900 ms at its log write %d and reported %q after its 300 ms time-out - but the client's handshake succeeded: the server completed the exchange after it had given up", c.Step, serr)
+		return
+	}
+	if cerr == nil && serr == nil && atomic.LoadInt32(&w.slow) == 1 && el < 250*time.Millisecond {
+		r.Violf("the %s was held up for 900 ms inside its handshake, yet both ends returned success after %v", c.SlowEnd, el)
+	}
 }
 
 type fakePeer struct {
@@ -335,6 +411,8 @@ func c12Run(c hs12Case, r *runCtx) {
 	switch c.Kind {
 	case "pair":
 		c12RunPair(c, r)
+	case "pair-slow":
+		c12RunPairSlow(c, r)
 	default:
 		c12RunFake(c, r)
 	}
@@ -580,7 +658,7 @@ func c12RunFake(c hs12Case, r *runCtx) {
 func genC12Case(t *rapid.T) hs12Case {
 	all := c12Cases()
 	c := all[rapid.IntRange(0, len(all)-1).Draw(t, "script")]
-	if c.Kind != "pair" {
+	if c.Kind != "pair" && c.Kind != "pair-slow" {
 		c.DelayMs = rapid.SampledFrom([]int{0, 1, 5, 20}).Draw(t, "delay")
 	}
 	return c
